@@ -560,6 +560,8 @@ def emit(d, pt, outdir):
     def rows_to_coq(tbl, ids):
         rs = []
         for s in sorted(tbl, key=int):
+            if not tbl[s]:
+                continue   # a state without entries: same look-up behaviour, not written by PLY either
             ent = ["(%d%%positive, (%d)%%Z)" % (ids[t], a) for t, a in sorted(tbl[s], key=lambda x: ids[x[0]])]
             rs.append("(%d%%N, %s)" % (int(s), clist(ent)))
         return "[ " + "\n  ; ".join(rs) + " ]"
